@@ -210,7 +210,7 @@ pub fn run(ctx: &Ctx) -> i32 {
     });
     // corpus files through the coarse schedules
     let corpus = crate::corpus::list(ctx);
-    let cs = run_cases(ctx, corpus.len() as u64, |i| {
+    let cs = run_stage(ctx, "corpus", corpus.len() as u64, |i| {
         let (name, bytes) = &corpus[i as usize];
         let mut res = CaseResult::ok(crate::rng::hash_bytes(&bytes[..bytes.len().min(4096)]), 0, "corpus");
         let o = ObsOpts::structure_only();
